@@ -10,6 +10,7 @@ mod loraapi;
 mod maccmd;
 mod maccmd_sets;
 mod maccmd_creators;
+mod maccmd_creators2;
 mod phyio;
 mod statics;
 mod tables;
